@@ -65,6 +65,34 @@ pub fn h_check() {
     top_contract(true, len, &st, has_out, true, &errs);
 }
 
+/// The entry points against a child that may fail WITHOUT leaving a pending error (such parsers exist:
+/// `collect_exactly` at its bound, C20 finding): the result contract of C03 ("no output implies an error")
+/// and totality (C20: no panic) must hold regardless - that is what the placeholder error is for.
+pub fn h_top_weak_child<Er: VE + crate::error::Error<'static, SymIn<u8>>, const CHECK: bool>() {
+    let len = ch::any_usize();
+    let mut st = VState::new(len);
+    st.silent_fail = true;
+    let g = anyp::<SymIn<u8>, X<Er>>(0);
+    let (has_out, nerr) = if CHECK {
+        let r: ParseResult<(), Er> = g.check_with_state(SymIn::new(len), &mut st);
+        let h = r.has_output();
+        (h, r.into_errors().len())
+    } else {
+        let r: ParseResult<u16, Er> = g.parse_with_state(SymIn::new(len), &mut st);
+        let h = r.has_output();
+        (h, r.into_errors().len())
+    };
+    let a = st.log[0];
+    vcover!(!a.ok && !a.offered, "parse: grammar fails without leaving a pending error");
+    vassert!(has_out == (a.ok && a.exit_pos == len), "C03/parse.output-iff-grammar-matched-the-entire-input");
+    if !has_out {
+        vassert!(nerr >= 1, "C03/parse.no-output-implies-at-least-one-error");
+        vassert!(nerr == a.emitted + 1, "C03/parse.errors-are-emitted-ones-then-the-primary");
+    } else {
+        vassert!(nerr == a.emitted, "C03/parse.errors-are-exactly-the-emitted-ones");
+    }
+}
+
 /// `ParseResult` accessors over every combination of output presence and error count.
 pub fn h_parse_result() {
     let out: Option<u16> = if ch::any_bool() { Some(ch::any_u16()) } else { None };
@@ -98,6 +126,14 @@ harnesses! {
     parse_with_state = h_parse;
     #[kani::unwind(4)]
     check_with_state_check = h_check;
+    #[kani::unwind(4)]
+    parse_weak_child = h_top_weak_child::<VS, false>;
+    #[kani::unwind(4)]
+    check_weak_child_check = h_top_weak_child::<VS, true>;
+    #[kani::unwind(4)]
+    parse_weak_child_zst = h_top_weak_child::<VZ, false>;
+    #[kani::unwind(4)]
+    check_weak_child_check_zst = h_top_weak_child::<VZ, true>;
     #[kani::unwind(4)]
     parse_result = h_parse_result;
 }
